@@ -222,6 +222,10 @@ pub fn gen(rng: &mut Rng, _index: u64) -> String {
                 let (a, b, p) = (at(rng.range(-2, 2)), at(rng.range(-2, 2)), at(rng.range(-4, 4)));
                 return format!("C03.seg {} {} {}", proto::coord(a), proto::coord(b), proto::coord(p));
             }
+            if rng.chance(1, 8) {
+                let (a, b, p) = crate::shapes::ulp_beyond_end(rng);
+                return format!("C03.seg {} {} {}", proto::coord(a), proto::coord(b), proto::coord(p));
+            }
             let (a, p, b) = near_collinear(rng);
             format!("C03.seg {} {} {}", proto::coord(a), proto::coord(b), proto::coord(p))
         }
